@@ -24,7 +24,7 @@ MIN_NONTRIVIAL = {"quick": 200, "thorough": 2000}
 REQUIRED_FUNCTIONS = ["listener.py:BlackbirdListener.exitInclude", "listener.py:BlackbirdListener.exitStatement", "__init__.py:load"]
 FUNCTIONS = REQUIRED_FUNCTIONS + ["program.py:BlackbirdProgram.__call__"]
 REQUIRED_TAGS = ["nested>=2", "repeat-call", "template-call", "cwd:main-dir", "cwd:parent", "cwd:root", "cwd:unrelated", "cwd:decoy", "path:relative",
-                 "path:absolute", "include:subdir", "include:repeated-line", "include:abs+rel", "neg:arity", "neg:keywords", "include:symlink-dotdot", "call-in-loop", "template-call-in-loop", "include:gate-named-like-another-subroutine", "equal-but-different-values", "keyword-order-shuffled", "same-values-other-keywords", "call-transitively-included", "include:all-absolute"]
+                 "path:absolute", "include:subdir", "include:repeated-line", "include:abs+rel", "neg:arity", "neg:keywords", "include:symlink-dotdot", "call-in-loop", "template-call-in-loop", "include:gate-named-like-another-subroutine", "equal-but-different-values", "keyword-order-shuffled", "same-values-other-keywords", "call-transitively-included", "include:all-absolute", "failed-load-then-corrected-file"]
 ASSUMPTIONS = ["reference inlining rule: DESIGN Appendix A rule 11 (sorted(sub.modes) -> call modes, parameters bound from keywords)",
                "files are ASCII; sub-programs contain no measured registers (the statement renames modes only)"]
 
@@ -455,6 +455,23 @@ def check_tree(ctx, files, main_path, info, rng, negative=None):
             tags.add(p)
         ctx.case(payload, nt, tags=sorted(tags))
         ctx.sample({"files": {k_: v for k_, v in files.items()}, "main": main_path}, limit=1)
+        incs = [f_ for f_, v_ in files.items() if f_ != main_path and isinstance(v_, str)]
+        if incs and rng.random() < 0.2:
+            # an included file is faulty at first (undefined name / syntax error / wrong call), the load fails, the file is
+            # corrected and the same paths are loaded again: the corrected tree must give the program it denotes
+            f_ = rng.choice(incs)
+            path_ = os.path.join(root, f_)
+            if os.path.isfile(path_) and not os.path.islink(path_):
+                fault_ = rng.choice(["\nZz9(undefined_name_qq) | 0\n", "\nG(1 | 0\n", "\nint bad__ = 1+2j\n"])
+                with open(path_, "w", encoding="ascii", newline="") as fh_:
+                    fh_.write(files[f_].replace("@ABS@", root).rstrip("\n") + fault_)
+                p0, e0 = load_under(root, main_path, chosen[0][0], chosen[0][1], other)
+                with open(path_, "w", encoding="ascii", newline="") as fh_:
+                    fh_.write(files[f_].replace("@ABS@", root))
+                tags.add("failed-load-then-corrected-file")
+                ctx.case(payload + "/fail-first", True, tags=["failed-load-then-corrected-file"])
+                if e0 is None:
+                    ctx.observe("a tree with a faulty included file loaded (the faulty statement is after what the main script uses)")
         first = None
         for (c, p) in chosen:
             prog, exc = load_under(root, main_path, c, p, other)
